@@ -794,6 +794,9 @@ class World:
         key, m, positions = key_of(n)
         sc = a.obj.schema()
         form, val = self._assign_value(step, m, sc.kind if sc is not None else None)
+        if isinstance(key, int) and form == "list":
+            # one position takes one value (a list would become a cell of an object vector: nested data is outside the world)
+            form, val = "scalar", (val[0] if val else None)
         if isinstance(key, int) and n and -n <= key < n and step[3] % 6 == 1:
             tw = self._twin(a.obj[key])
             if tw is not None:
